@@ -989,6 +989,62 @@ func ruleResolverSpec(r *Run) {
 				"`"+key+"` is answered non-null for kinds "+ksetString(got)+" but the specification requires exactly "+ksetString(wantSet)+" (null otherwise): clients rebuilding the schema see fields/members on the wrong kinds or miss them")
 		}
 	}
+	// R11e.scope: sibling fields of one selection are answered independently. In the loop over
+	// the selected fields nothing but the loop position is carried from one field to the next:
+	// a flag evaluated for one field (`includeDeprecated: true` on `all: fields(...)`) that
+	// survives into the next iteration answers the sibling `current: fields` with it.
+	nLoops := 0
+	for _, rs := range resolvers {
+		var swBlock *ssa.BasicBlock
+		for _, b := range rs.sw.cases {
+			swBlock = b
+			break
+		}
+		if swBlock == nil {
+			continue
+		}
+		loop := innermostLoop(swBlock)
+		if loop == nil {
+			continue
+		}
+		nLoops++
+		for b := range loop {
+			isHeader := false
+			for _, p := range b.Preds {
+				if !loop[p] {
+					isHeader = true
+				}
+			}
+			if !isHeader {
+				continue
+			}
+			for _, ins := range b.Instrs {
+				phi, ok := ins.(*ssa.Phi)
+				if !ok {
+					break
+				}
+				if phi.Comment == "rangeindex" {
+					continue
+				}
+				carried := false
+				for i, e := range phi.Edges {
+					if loop[b.Preds[i]] && e != ssa.Value(phi) {
+						carried = true
+					}
+				}
+				if !carried {
+					continue
+				}
+				name := phi.Comment
+				if name == "" {
+					name = phi.Name()
+				}
+				r.Bad("R11e.scope", fnName(rs.fn), "value `"+name+"` carried between sibling fields", r.P.pos(phi.Pos()),
+					"the loop over the selected fields of "+rs.def.Name+" carries `"+name+"` from one selected field to the next: what was evaluated for one field (an argument such as includeDeprecated) also decides the answer of its siblings")
+			}
+		}
+	}
+	r.AtLeast("R11e.scope", "selection loops of the introspection resolvers", nLoops, 5)
 }
 
 // ruleIntrospectionSources (R13l, R3b): argument values are evaluated against the request
@@ -1150,6 +1206,21 @@ func ruleEnumTables(r *Run) {
 					}
 					c, isConst := obj.(*types.Const)
 					if !isConst {
+						// a plain string literal that spells the value of an enumeration constant
+						// ("FIELD_DEFINITION"): counted for every enumeration that has the value
+						if tv, ok := p.TypesInfo.Types[ex]; ok && tv.Value != nil && tv.Value.Kind() == constant.String {
+							val := constant.StringVal(tv.Value)
+							for nt, cs := range enums {
+								for _, ec := range cs {
+									if ec.Val().Kind() == constant.String && constant.StringVal(ec.Val()) == val {
+										if seen[nt] == nil {
+											seen[nt] = map[string]bool{}
+										}
+										seen[nt][ec.Name()] = true
+									}
+								}
+							}
+						}
 						continue
 					}
 					nt, isNamed := c.Type().(*types.Named)
